@@ -65,7 +65,7 @@ func semRun(c *Ctx, flavour string, n int, prop string) {
 	pool := argPool()
 	for i := 0; i < n; i++ {
 		r := c.R.Fork()
-		var src string
+		var src, class string
 		switch flavour {
 		case "tryenum":
 			src = gen.TryProgram(r)
@@ -77,6 +77,9 @@ func semRun(c *Ctx, flavour string, n int, prop string) {
 			src = gen.ClosureChainProgram(r)
 		case "destruct":
 			src = gen.DestructProgram(i)
+		case "freshvar":
+			src = gen.FreshVarProgram(i)
+			class = "freshvar"
 		default:
 			src = gen.Program(r, semProgOpts(r, flavour))
 		}
@@ -113,7 +116,13 @@ func semRun(c *Ctx, flavour string, n int, prop string) {
 			continue
 		}
 		line := semLine(200000, ast, ugo.Map{}, args, src)
-		c.Add(Case{Line: line, Impl: implNo, Key: fmt.Sprintf("%s/%x", cls, hashStr(implNo)%4093)})
+		if class == "freshvar" {
+			// family name: declaring form, update, what the implementation answered, context — a known
+			// finding pins the first three, so another wrong answer of the same form is a new violation
+			d, cx, after := gen.FreshVarParts(i)
+			class = fmt.Sprintf("freshvar:%s:a%d:i%06x:%s", d, after, hashStr(implNo)&0xffffff, cx)
+		}
+		c.Add(Case{Line: line, Impl: implNo, Key: fmt.Sprintf("%s/%x", cls, hashStr(implNo)%4093), Class: class, Prop: prop})
 		// C01: the optimized program must behave like the unoptimized one (same oracle, other compile path)
 		for _, lim := range []int{0, 1, 3} {
 			bcOpt, err := ugo.Compile([]byte(src), ugo.CompilerOptions{OptimizerLimit: lim})
@@ -221,7 +230,7 @@ func init() {
 			return runPlain(bc, ugo.Map{}, args), nil
 		},
 		Run: func(c *Ctx) {
-			c.Rule("random scripts (gen.Program; flavours: general, try-heavy, call-heavy, try enumeration, self tail calls, the complete call-binding enumeration (params 0..3 x variadic x explicit args 0..4 x spread none/0..4 x 5 call positions), chains of sibling closures, the destructuring enumeration over slices of a live array) run by the implementation (compiler+VM, optimizer off) vs the reference semantics Spec/Sem on the same AST: outcome and final globals (side-effect log); also optimizer on at limits {default,1,3} vs off (C01); distinct = distinct (outcome class, outcome hash)")
+			c.Rule("random scripts (gen.Program; flavours: general, try-heavy, call-heavy, try enumeration, self tail calls, the complete call-binding enumeration (params 0..3 x variadic x explicit args 0..4 x spread none/0..4 x 5 call positions), chains of sibling closures, the destructuring enumeration over slices of a live array, the fresh-variable enumeration (17 declaring forms incl. the catch identifier x 8 re-execution contexts x 3 updates after capture)) run by the implementation (compiler+VM, optimizer off) vs the reference semantics Spec/Sem on the same AST: outcome and final globals (side-effect log); also optimizer on at limits {default,1,3} vs off (C01); distinct = distinct (outcome class, outcome hash)")
 			semRun(c, "general", 700*c.Scale, "C02")
 			semRun(c, "try", 500*c.Scale, "C03")
 			semRun(c, "calls", 300*c.Scale, "C02")
@@ -230,6 +239,7 @@ func init() {
 			semRun(c, "callbind", gen.NumCallBindPrograms, "C02")
 			semRun(c, "closures", 200*c.Scale, "C02")
 			semRun(c, "destruct", gen.NumDestructPrograms, "C02")
+			semRun(c, "freshvar", gen.NumFreshVarPrograms, "C02")
 		},
 	})
 }
